@@ -1,5 +1,257 @@
-(* C11 — placeholder while the pipeline is brought up; replaced by the theorems. *)
-From MptV Require Import Base.Mem C11.DispatchModel C11.DispatchSpec.
-Example C11_pipeline_smoke : length (drun dinit [OSet 1%N; OFini]) = 2.
-Proof. reflexivity. Qed.
-Print Assumptions C11_pipeline_smoke.
+(* C11 — Event dispatch reaches exactly the registered handler.
+   This file holds only the property theorems (each closed by [exact] of a lemma
+   proved elsewhere), their non-vacuity examples and Print Assumptions.
+
+   Reading guide.
+   * [disp] (C11/DispatchModel.v) is the dispatcher as the C keeps it: the command
+     table (slots (id, cmd, arg), unused slots, typed/raw buffer), [_def], [_err],
+     [_ctx].  [dstep d o] transcribes one library call ([op]): mpt_dispatch_set,
+     mpt_command_set/get/clear/reserve (+ arming), mpt_dispatch_emit/hash/fini,
+     dispatch::set_error/set_default.  Handlers are abstract: what the harness handler
+     returns is the [resp] carried by the operation.  Every step returns its log delta:
+     [LReg r] registration r went live, [LCall r f a (Some view)] invocation with an
+     event, [LCall r f a None] end-of-life call cmd(arg, NULL), [LReply], [LUnref].
+     The registration number r of whatever an operation registers is the number of
+     that operation in the history (ghost counter), so registrations are told apart.
+   * [sdisp] (C11/DispatchSpec.v) is the specification state: an association list
+     id -> handler without repeated ids, the fallback handler, the default id, the
+     fallback reply context.  [sstep] are plain map operations.
+   * [dfinal dinit ops] / [sfinal dinit sinit ops]: the model / specification state
+     after the history [ops] on a fresh dispatcher (mpt_dispatch_init); [full_log ops]
+     the whole log.  ALL theorems quantify over every history: no bound on its length,
+     on the table size or on the ids (2^64 wrap-around is modelled in djb2 only; the
+     id choice of reserve cannot wrap after fix 21b24df). *)
+From MptV Require Import Base.Mem C17.MessageModel C17.MessageSpec
+  C11.DispatchModel C11.DispatchSpec C11.DispatchLemmas C11.DispatchCompact C11.DispatchTable
+  C11.DispatchEvent C11.DispatchRefine C11.DispatchLog C11.DispatchHistory.
+From Coq Require Import Permutation.
+
+(* ---- refinement: slot table -> finite map ------------------------------------ *)
+(* One operation from related states ([R]: the live table entries are a permutation of
+   the map, other fields equal, no id twice): the states are related again, the
+   property-level output is the specification's, the log deltas agree up to the order
+   in which several finalisers run, the specification accepts the implementation's
+   choices (reserved id, refusal of a long unaligned command), no table access is out
+   of range, the low-id search of reserve terminates. *)
+Theorem C11_step_refines_map :
+  forall d s o, R d s ->
+    let '(d', out, lg) := dstep d o in
+    let '(s', so, slg) := sstep s o (advice d o) in
+    R d' s' /\ proj_out o out = so /\ Permutation lg slg /\ so <> SBad /\ out <> OFault /\ out <> OFuel.
+Proof. exact step_refines. Qed.
+
+(* Any history on a fresh dispatcher. *)
+Theorem C11_history_refines_map :
+  forall ops,
+    Forall2 obs_eqv (prun dinit ops) (srun dinit sinit ops)
+    /\ Forall (fun y => fst (fst y) <> SBad) (srun dinit sinit ops)
+    /\ Forall (fun x => fst (fst x) <> OFault /\ fst (fst x) <> OFuel) (drun dinit ops).
+Proof. exact (fun ops => run_refines ops dinit sinit R_init). Qed.
+
+(* ---- delivery ---------------------------------------------------------------- *)
+(* An event carrying id [id] (its id field, or the first byte of its message), after any
+   history: exactly one handler call happens, it is the invocation of the handler the
+   specification map holds for [id], with that id, and with the event's reply context or
+   else the dispatcher's. *)
+Theorem C11_emit_reaches_registered :
+  forall ops e rsp id h,
+    let d := dfinal dinit ops in
+    let s := sfinal dinit sinit ops in
+    event_id e = Some id ->
+    m_lookup (s_map s) id = Some h ->
+    calls_in (snd (dstep d (OEmit (Some e) rsp))) = [call_of h id (is_some (e_msg e)) (seen_reply s e)].
+Proof. exact emit_registered. Qed.
+
+(* No handler registered for the id: the fallback handler is the one and only call;
+   without fallback nobody is called and the result is BadArgument. *)
+Theorem C11_emit_fallback_otherwise :
+  forall ops e rsp id,
+    let d := dfinal dinit ops in
+    let s := sfinal dinit sinit ops in
+    event_id e = Some id ->
+    m_lookup (s_map s) id = None ->
+    match s_fb s with
+    | Some h => calls_in (snd (dstep d (OEmit (Some e) rsp))) = [call_of h id (is_some (e_msg e)) (seen_reply s e)]
+    | None => calls_in (snd (dstep d (OEmit (Some e) rsp))) = []
+              /\ snd (fst (dstep d (OEmit (Some e) rsp))) = OEv (-1) (Some id) (seen_reply s e)
+    end.
+Proof. exact emit_fallback. Qed.
+
+(* An empty message carries no id: nobody is called, BadValue. *)
+Theorem C11_emit_empty_message :
+  forall ops e rsp,
+    let d := dfinal dinit ops in
+    event_id e = None ->
+    dstep d (OEmit (Some e) rsp) = (tick d, OEv (-2) (Some (e_id e)) (e_reply e), []).
+Proof. exact emit_empty_message. Qed.
+
+(* The NULL event runs the default id; a default id nobody is registered for is dropped. *)
+Theorem C11_emit_null_event :
+  forall ops rsp,
+    let d := dfinal dinit ops in
+    let s := sfinal dinit sinit ops in
+    let '(d', out, lg) := dstep d (OEmit None rsp) in
+    if (d_def d =? 0)%N then lg = [] /\ out = OEv 0 None None /\ d_def d' = 0%N
+    else match m_lookup (s_map s) (d_def d) with
+         | None => lg = [] /\ out = OEv (-2) None None /\ d_def d' = 0%N
+         | Some h => calls_in lg = [call_of h (d_def d) false (s_ctx s)]
+         end.
+Proof. exact emit_null. Qed.
+
+(* Command text: the id is the djb2 hash of the first argument; the registered handler
+   for it, else the fallback, else nobody. *)
+Theorem C11_hash_reaches_registered :
+  forall ops e rsp F raw,
+    let d := dfinal dinit ops in
+    let s := sfinal dinit sinit ops in
+    e_msg e = Some F ->
+    flat_hash_text (concat F) = inr raw ->
+    a_unaligned (advice d (OHash (Some e) rsp)) = false ->
+    let id := djb2 (strip0 (hash_sep (concat F)) raw) in
+    let lg := snd (dstep d (OHash (Some e) rsp)) in
+    match s_target s id with
+    | Some h => calls_in lg = [call_of h id true (e_reply e)]
+    | None => calls_in lg = []
+    end.
+Proof. exact hash_reaches. Qed.
+
+(* ---- default-event bookkeeping ----------------------------------------------- *)
+(* [ret], [id']: what handler h returned and the id it left in the event ([s_invoke] is
+   the scripted answer for the harness handler, the built-in unknownEvent otherwise).
+   Error: _def untouched, error returned.  Default flag set: _def := id' (0 removes it).
+   Not set: _def untouched.  The result carries Default iff a default id exists. *)
+Theorem C11_default_bookkeeping :
+  forall ops e rsp id h,
+    let d := dfinal dinit ops in
+    let s := sfinal dinit sinit ops in
+    event_id e = Some id ->
+    s_target s id = Some h ->
+    let rp := seen_reply s e in
+    let '(ret, id', _) := s_invoke h id (option_map (@concat byte) (e_msg e)) rp rsp in
+    let '(d', out, _) := dstep d (OEmit (Some e) rsp) in
+    if (ret <? 0)%Z then d_def d' = d_def d /\ out = OEv ret (Some id') rp
+    else if Z.testbit ret 0
+         then d_def d' = id' /\ out = OEv (if (id' =? 0)%N then clr_default ret else set_default (clr_default ret)) (Some id') rp
+         else d_def d' = d_def d /\ out = OEv (if (d_def d =? 0)%N then ret else set_default ret) (Some id') rp.
+Proof. exact emit_bookkeeping. Qed.
+
+(* ---- end-of-life notifications ----------------------------------------------- *)
+(* In the log of any history: no registration number is registered twice; a registered
+   one has had exactly one finaliser call or is still held (table or fallback), never
+   both, never two; a number that was not registered is never finalised, held or
+   invoked; an invocation comes after its registration and before its finaliser. *)
+Theorem C11_finalised_exactly_once :
+  forall ops,
+    let log := full_log ops in
+    let held := live_regs (abs (dfinal dinit ops)) in
+    NoDup (regs_of log)
+    /\ (forall r, In r (regs_of log) ->
+          count_occ N.eq_dec (fins_of log) r + count_occ N.eq_dec held r = 1)
+    /\ (forall r, ~ In r (regs_of log) ->
+          ~ In r (fins_of log) /\ ~ In r held /\ ~ In r (calls_of log))
+    /\ ordered log.
+Proof. exact finalised_once. Qed.
+
+(* After teardown nothing is held: every registration ever made has been finalised
+   exactly once. *)
+Theorem C11_finalised_after_fini :
+  forall ops,
+    let log := full_log (ops ++ [OFini]) in
+    Permutation (regs_of log) (fins_of log) /\ NoDup (fins_of log).
+Proof. exact finalised_after_fini. Qed.
+
+(* ---- ids ----------------------------------------------------------------------- *)
+(* No id is live twice in the table, after any history. *)
+Theorem C11_live_ids_unique :
+  forall ops, NoDup (map fst (entries (d_tbl (dfinal dinit ops)))).
+Proof. exact live_ids_unique. Qed.
+
+(* mpt_command_reserve: the id handed out is not live, lies in [1, max], and is live
+   afterwards; otherwise the call is refused (never a fault, never a runaway search). *)
+Theorem C11_reserved_ids_unique :
+  forall ops max,
+    let d := dfinal dinit ops in
+    match snd (fst (dstep d (OReserve max))) with
+    | ORes (Some (pos, id)) =>
+      ~ In id (map fst (entries (d_tbl d))) /\ (1 <= id <= reserve_max max)%N
+      /\ In id (map fst (entries (d_tbl (fst (fst (dstep d (OReserve max)))))))
+    | ORes None => True
+    | _ => False
+    end.
+Proof. exact reserved_fresh. Qed.
+
+(* The in-place compaction loop of mpt_command_reserve is a stable filter, for every table. *)
+Theorem C11_compaction_is_stable_filter :
+  forall sl, exists D',
+    compact sl = Ok (filter live sl ++ D', length (filter live sl), maxid sl 0%N)
+    /\ length (filter live sl ++ D') = length sl.
+Proof. exact compact_spec. Qed.
+
+(* ---- non-vacuity ---------------------------------------------------------------- *)
+Definition ev_id (i : N) : option event := Some (mkev i None None).
+Definition ok0 : resp := mkresp 0 None.
+
+(* growth to 4 slots, a freed slot reused, delivery to the re-registered handler, to the
+   last table entry, to the fallback (built-in, not a harness call), then teardown:
+   handler calls per operation *)
+Example C11_ex_history :
+  map (fun x => calls_in (snd (fst x)))
+      (drun dinit [OSet 1; OSet 2; OSet 3; OSet 255; OUnset 1; OSet 4; OEmit (ev_id 4) ok0;
+                   OEmit (ev_id 255) ok0; OEmit (ev_id 1) ok0; OFini]%N)
+  = [[]; []; []; []; [LCall 1 FUser 1 None]; [];
+     [LCall 6 FUser 6 (Some (mkview 4 false None))];
+     [LCall 4 FUser 4 (Some (mkview 255 false None))];
+     [LCall 0 FUnk 0 (Some (mkview 1 false None))];
+     [LCall 6 FUser 6 None; LCall 2 FUser 2 None; LCall 3 FUser 3 None; LCall 4 FUser 4 None; LCall 0 FUnk 0 None]]%N.
+Proof. vm_compute. reflexivity. Qed.
+
+(* the freed first slot was reused: table after the sixth operation *)
+Example C11_ex_reuse :
+  option_map (fun t => map sid (slots t)) (d_tbl (dfinal dinit [OSet 1; OSet 2; OSet 3; OUnset 1; OSet 4]%N))
+  = Some [4; 2; 3]%N.
+Proof. vm_compute. reflexivity. Qed.
+
+(* reserve on a raw table: first id 1, next id above all (2); with id 255 live and ids
+   limited to 127 the low-id search skips the live 1 and 2 (3); after unset 1 the table
+   is compacted (slot 3 again) and the freed id 1 is found *)
+Example C11_ex_reserve :
+  map (fun x => fst (fst x))
+      (drun dinit [OReserve 1; OReserve 1; OSet 255; OReserve 1; OUnset 1; OReserve 1]%N)
+  = [ORes (Some (0, 1%N)); ORes (Some (1, 2%N)); OInt 1; ORes (Some (3, 3%N)); OInt 0; ORes (Some (3, 1%N))].
+Proof. vm_compute. reflexivity. Qed.
+
+(* default bookkeeping: Default sets the default id, the NULL event runs it, a handler
+   that clears the event id with Default set removes it *)
+Example C11_ex_default :
+  map (fun x => (fst (fst x), d_def (snd x)))
+      (drun dinit [OSet 1; OEmit (ev_id 1) (mkresp 1 None); OEmit None (mkresp 4 None);
+                   OEmit None (mkresp 1 (Some 0)); OEmit None ok0]%N)
+  = [(OInt 1, 0); (OEv 1 (Some 1) None, 1); (OEv 5 None None, 1); (OEv 0 None None, 0); (OEv 0 None None, 0)]%N.
+Proof. vm_compute. reflexivity. Qed.
+
+(* djb2 with the signed-char xor: "go", the single byte 0xe9, "été" in UTF-8 *)
+Example C11_ex_djb2 :
+  (djb2 [103; 111], djb2 [233], djb2 [195; 169; 116; 195; 169])%N
+  = (5860973, 18446744073709374028, 210571716113)%N.
+Proof. vm_compute. reflexivity. Qed.
+
+(* hash dispatch of the command text "\x04 go a" cut into three parts *)
+Example C11_ex_hash :
+  calls_in (snd (dstep (dfinal dinit [OSet 5860973%N])
+                       (OHash (Some (mkev 0 (Some [[4; 32]; [103]; [111; 32; 97]]%N) None)) ok0)))
+  = [LCall 1 FUser 1 (Some (mkview 5860973 true None))]%N.
+Proof. vm_compute. reflexivity. Qed.
+
+Print Assumptions C11_step_refines_map.
+Print Assumptions C11_history_refines_map.
+Print Assumptions C11_emit_reaches_registered.
+Print Assumptions C11_emit_fallback_otherwise.
+Print Assumptions C11_emit_empty_message.
+Print Assumptions C11_emit_null_event.
+Print Assumptions C11_hash_reaches_registered.
+Print Assumptions C11_default_bookkeeping.
+Print Assumptions C11_finalised_exactly_once.
+Print Assumptions C11_finalised_after_fini.
+Print Assumptions C11_live_ids_unique.
+Print Assumptions C11_reserved_ids_unique.
+Print Assumptions C11_compaction_is_stable_filter.
